@@ -134,6 +134,11 @@ func c02R1(p *Prog, r *Report) {
 				}
 				wantVals = append(wantVals, e.root+"."+big)
 				isSync := func(x ssa.Instruction) bool {
+					// a helper that sets the small copy on every path (a setter taking the value, or
+					// a method that copies the big copy of the same processor)
+					if call, isCall := x.(*ssa.Call); isCall {
+						return c02HelperSyncs(c, call, small, big, e.root, wantVals)
+					}
 					st, ok := x.(*ssa.Store)
 					if !ok {
 						return false
@@ -1001,4 +1006,67 @@ func splitDelay(c *PolyCtx, v, hold Poly) []Poly {
 		}
 	}
 	return []Poly{rest}
+}
+
+// c02HelperSyncs: the call runs a module helper that, on every path, stores into the EMTState
+// field `small` of the processor rooted at `root` (in the caller's names) a value that is one of
+// wantVals: taken from a parameter (then the argument passed is compared) or read from the big
+// copy of the same processor inside the helper.
+func c02HelperSyncs(c *PolyCtx, call *ssa.Call, small, big, root string, wantVals []string) bool {
+	h := call.Call.StaticCallee()
+	if !isModuleFn(h) || len(h.Params) != len(call.Call.Args) {
+		return false
+	}
+	hc := NewPolyCtx(h)
+	matches := func(got string) bool {
+		for _, w := range wantVals {
+			if got == w || basePath(got) == w {
+				return true
+			}
+		}
+		return false
+	}
+	isGood := func(x ssa.Instruction) bool {
+		st, ok := x.(*ssa.Store)
+		if !ok {
+			return false
+		}
+		o, f, ok := lastField(st.Addr)
+		if !ok || o != "EMTState" || f != small {
+			return false
+		}
+		hpath, okp := hc.accessPath(st.Addr)
+		if !okp {
+			return false
+		}
+		// which parameter the stored-to object hangs off, and what that is in the caller
+		for j, prm := range h.Params {
+			pn := prm.Name()
+			if hpath != pn && !strings.HasPrefix(hpath, pn+".") {
+				continue
+			}
+			argPath, okA := c.accessPath(call.Call.Args[j])
+			if !okA {
+				return false
+			}
+			callerPath := argPath + strings.TrimPrefix(hpath, pn)
+			if !strings.HasPrefix(callerPath, root+".") {
+				return false
+			}
+			got := stripNarrow(hc.Of(st.Val))
+			// the value: a parameter of the helper ...
+			for k, q := range h.Params {
+				if isIntLike(q.Type()) && got == hc.Of(q).String() {
+					return matches(stripNarrow(c.Of(call.Call.Args[k])))
+				}
+			}
+			// ... or the big copy of the same object, read inside the helper
+			if strings.HasPrefix(basePath(got), pn+".") {
+				return matches(argPath + strings.TrimPrefix(basePath(got), pn))
+			}
+			return false
+		}
+		return false
+	}
+	return len(ReachAvoiding(h, nil, isGood, isReturn)) == 0
 }
